@@ -10,6 +10,7 @@ def run(ctx):
         ctx.tlc_must_pass("MC_C17", cfg=cfg, workers=16, heap="6g" if ctx.quick else "12g")
     for cfg, inv in (("MC_C17_exception", "NoConflict"), ("MC_C17_locale", "SerialResults")):
         r = ctx.tlc("MC_C17", cfg=cfg, workers=4)
+        if ("Invariant %s is violated" % inv) not in r["out"]: r = ctx.tlc("MC_C17", cfg=cfg, workers=2)      # e.g. a JVM killed on an overloaded machine: once more
         if ("Invariant %s is violated" % inv) not in r["out"]:
             raise Broken("vacuity guard: configuration %s did not exhibit the %s conflict\n%s" % (cfg, inv, r["out"][-1500:]))
     # 2. real schedules under ThreadSanitizer
@@ -46,6 +47,36 @@ def run(ctx):
         if key not in seen: seen.add(key); extra.append(r)
     for out, rc in res:
         if rc != 0 and not reports: extra.append({"prop": "C17", "why": "threaded run ended abnormally", "rc": rc})
+    # 2b. the same kinds of schedules on the uninstrumented build under valgrind's DRD, which also watches the C library's internal static
+    #     buffers (localeconv, strtok, getenv-style state) that ThreadSanitizer cannot see because glibc is not instrumented.  Only reports
+    #     with a frame inside the library's own sources count; the control below shows the instrument fires.
+    import shutil, subprocess
+    drd_reports = 0; drd_runs = 0
+    if shutil.which("valgrind"):
+        bp = ctx.build("plain", "A"); exep = ctx.harness(bp)
+        srcs = set(os.path.basename(q) for q in glob.glob(os.path.join(os.environ.get("XRL_REPO", "/repo"), "src", "*.c")))
+        sched = [["c17", 8, 400, 60], ["c17", 8, 800, 300], ["c17", 8, 400, 40, "errors"], ["c17", 12, 200, 8, "files"]] + [["c17", 8, 100, 48, "family", k, 7] for k in range(7 if not ctx.quick else 3)]
+        def drd(a):
+            r = subprocess.run(["valgrind", "--tool=drd", "-q", "--num-callers=12"] + [exep] + [str(x) for x in a], stdout=subprocess.DEVNULL, stderr=subprocess.PIPE, text=True, timeout=1800,
+                               env=dict(os.environ, VERIF_SEED=str(ctx.seed * 77 + len(a)), XRL_SCRATCH_DIR=ctx.scratch))
+            return a, r
+        with cf.ThreadPoolExecutor(max_workers=NCPU // 2) as ex: dres = list(ex.map(drd, sched))
+        seen_d = set()
+        for a, r in dres:
+            drd_runs += 1
+            for blk in re.split(r"\n(?==+\d+== (?:Thread \d+:|Conflicting))", r.stderr or ""):
+                m = re.search(r"Conflicting (load|store) by thread \d+ at \S+ size \d+", blk)
+                if not m: continue
+                own = re.split(r"Allocation context|Other segment", blk)[0]      # the accessing thread's own stack, not the context DRD prints after it
+                frames = re.findall(r"(?:at|by) 0x[0-9A-F]+: (\w+) \((\S+?\.c):(\d+)\)", own)
+                lib = [f for f in frames if f[1] in srcs]
+                if not lib: continue
+                drd_reports += 1; key = (m.group(1), lib[0])
+                if key not in seen_d:
+                    seen_d.add(key); extra.append({"prop": "C17", "why": "DRD (valgrind) data-race report: conflicting %s" % m.group(1), "frames": ["%s %s:%s" % f for f in lib[:4]], "schedule": " ".join(str(x) for x in a)})
+        a, r = drd(["c17", 4, 300, 50, "control"])
+        if not re.search(r"Conflicting (?:load|store)[^\n]*\n[^\n]*worker \(c17\.c:\d+\)", r.stderr or ""):
+            raise Broken("positive control failed: DRD did not report the harness's own unsynchronised counter\n" + (r.stderr or "")[-600:])
     parts = ctx.split_lines(merged, NCPU, "thr")
     ctx.tlc_traces("Trace_C17", parts)
     ctx.traces = nseeds
@@ -60,6 +91,6 @@ def run(ctx):
     return verdict(ctx, "model_checking", {
         "distinct_nontrivial": nev,
         "rule": "model: XrlConc explored exhaustively (2 threads x 2 calls and 3 threads x 1 call%s over the 6 thread-safe call kinds, every interleaving of their shared-state steps): NoConflict, SerialResults, LocaleRestored; the configuration with AddBuiltin must violate NoConflict and the non-C-locale configuration must violate SerialResults (both checked: vacuity guards). Schedules: %d seeded runs of 8-16 threads x %d calls over seeded query pools (numeric entry points incl. failing calls, compound functions, parser, catalogue and crystal lookups), each thread with its own error slots; every fifth run consists of failing calls only (error code and message text are part of the compared result), every fifth run reads one crystal file into per-thread arrays, every fifth run walks through the API one function at a time (all threads on the same function); the serial reference of every run is computed in a forked child so that the threads meet a library that has not been called yet (lazy initialisation races), on ThreadSanitizer objects; every (thread, query) compared bit for bit with the serial answer by TLC; any ThreadSanitizer report is a violation; positive control (one thread inserting into the built-in collection) must be reported. distinct_nontrivial = (run, thread, query) triples compared; evaluations = concurrent calls." % (", 3 threads x 2 calls" if not ctx.quick else "", nseeds, calls),
-        "tsan_reports": len(reports), "concurrent_calls": ncalls,
-    }, ["data races are observed by ThreadSanitizer on the schedules that happened; glibc itself is not instrumented (setlocale vs strtod is covered by the model only)",
+        "tsan_reports": len(reports), "drd_runs": drd_runs, "drd_reports_in_library_frames": drd_reports, "concurrent_calls": ncalls,
+    }, ["data races are observed by ThreadSanitizer and, for the C library's internal static buffers, by valgrind's DRD on the schedules that happened",
         "the numeric locale of the process is C or C.utf8: the lost-restore interleaving of the parser in a comma-decimal locale is shown at model level (MC_C17_locale) and cannot be run here"], extra_violations=extra)
